@@ -379,7 +379,7 @@ func genCompList(c *choice.Ctx) []*refmodel.Comp {
 		}
 		switch c.Choose(fmt.Sprintf("c%d.mtype", i), 3) {
 		case 1:
-			sc.MType = sp("BL")
+			sc.MType = sp("BL %w")
 		case 2:
 			sc.MType = sp("")
 		}
@@ -388,7 +388,7 @@ func genCompList(c *choice.Ctx) []*refmodel.Comp {
 		}
 		switch c.Choose(fmt.Sprintf("c%d.version", i), 3) {
 		case 1:
-			sc.Version = sp("3.4.2")
+			sc.Version = sp("2.0%20rc1%") // (a text with per-cent signs: it ends up in error messages)
 		case 2:
 			sc.Version = sp("")
 		}
